@@ -1,4 +1,1324 @@
-From Coq Require Import List ZArith Bool Lia.
+(* proof/ExemplarProofs.v — lemmas for C21 (see props/C21.v for the statements that count). *)
+From Coq Require Import List ZArith Bool Lia Permutation Sorted.
 From Verif Require Import lib.Int64 model.Exemplar.
 Import ListNotations.
 Open Scope Z_scope.
+
+(* ------------------------------------------------------------------ lists *)
+Lemma zlen_nonneg {A} (l : list A) : 0 <= zlen l.
+Proof. unfold zlen. lia. Qed.
+
+Lemma zlen_app {A} (a b : list A) : zlen (a ++ b) = zlen a + zlen b.
+Proof. unfold zlen. rewrite app_length. lia. Qed.
+
+Lemma zlen_repeat {A} (x : A) n : zlen (repeat x n) = Z.of_nat n.
+Proof. unfold zlen. now rewrite repeat_length. Qed.
+
+Lemma upd_nat_length {A} (l : list A) n f : length (upd_nat l n f) = length l.
+Proof. revert n; induction l as [|x t IH]; intros [|n]; simpl; auto. Qed.
+
+Lemma upd_nat_app_l {A} (a b : list A) i f : (i < length a)%nat -> upd_nat (a ++ b) i f = upd_nat a i f ++ b.
+Proof.
+  revert i; induction a as [|x t IH]; intros i Hi; simpl in *; [lia|].
+  destruct i; simpl; [reflexivity|]. rewrite IH by lia. reflexivity.
+Qed.
+
+Lemma upd_nat_app_r {A} (a b : list A) i f : (length a <= i)%nat -> upd_nat (a ++ b) i f = a ++ upd_nat b (i - length a) f.
+Proof.
+  revert i; induction a as [|x t IH]; intros i Hi; simpl in *.
+  - now rewrite Nat.sub_0_r.
+  - destruct i; [lia|]. simpl. rewrite IH by lia. reflexivity.
+Qed.
+
+Lemma split_at {A} (l : list A) k : (k <= length l)%nat -> exists a b, l = a ++ b /\ length a = k.
+Proof.
+  intros H. exists (firstn k l), (skipn k l). split; [now rewrite firstn_skipn|].
+  rewrite firstn_length. lia.
+Qed.
+
+Lemma skipn_app_len {A} (a b : list A) n : n = length a -> skipn n (a ++ b) = b.
+Proof. intros ->. rewrite skipn_app, skipn_all, Nat.sub_diag. reflexivity. Qed.
+
+Lemma firstn_app_len {A} (a b : list A) n : n = length a -> firstn n (a ++ b) = a.
+Proof. intros ->. rewrite firstn_app, firstn_all, Nat.sub_diag. simpl. now rewrite app_nil_r. Qed.
+
+Lemma rotate_app {A} (a b : list A) n : n = length a -> rotate n (a ++ b) = b ++ a.
+Proof. intros H. unfold rotate. now rewrite skipn_app_len, firstn_app_len. Qed.
+
+Lemma rotate_length {A} (l : list A) k : length (rotate k l) = length l.
+Proof.
+  unfold rotate. rewrite app_length, Nat.add_comm, <- app_length, firstn_skipn. reflexivity.
+Qed.
+
+Lemma rotate_0 {A} (l : list A) : rotate 0 l = l.
+Proof. unfold rotate. simpl. now rewrite app_nil_r. Qed.
+
+(* updating position (k+i) mod n of the ring = updating position i of the ring seen from k *)
+Lemma rotate_upd {A} (l : list A) (k i : nat) f :
+  (k <= length l)%nat -> (i < length l)%nat ->
+  rotate k (upd_nat l (if (k + i <? length l)%nat then k + i else k + i - length l)%nat f)
+  = upd_nat (rotate k l) i f.
+Proof.
+  intros Hk Hi. destruct (split_at l k Hk) as (a & b & -> & Ha).
+  rewrite app_length in *. rewrite (rotate_app a b) by auto.
+  destruct (Nat.ltb_spec (k + i) (length a + length b)) as [H|H].
+  - rewrite upd_nat_app_r by lia. replace (k + i - length a)%nat with i by lia.
+    rewrite rotate_app by auto. rewrite upd_nat_app_l by lia. reflexivity.
+  - rewrite upd_nat_app_l by lia.
+    rewrite rotate_app by (rewrite upd_nat_length; auto).
+    rewrite upd_nat_app_r by lia. f_equal. f_equal. lia.
+Qed.
+
+Lemma upd_nat_0 {A} (l : list A) f x t : l = x :: t -> upd_nat l 0 f = f x :: t.
+Proof. intros ->. reflexivity. Qed.
+
+(* advancing the start of the view by one moves the head to the end *)
+Lemma rotate_succ {A} (l : list A) (k : nat) x t :
+  (k < length l)%nat -> rotate k l = x :: t ->
+  rotate (if (S k <? length l)%nat then S k else 0%nat) l = t ++ [x].
+Proof.
+  intros Hk Hr. destruct (split_at l k (Nat.lt_le_incl _ _ Hk)) as (a & b & -> & Ha).
+  rewrite rotate_app in Hr by auto. rewrite app_length in *.
+  destruct b as [|y b]; [simpl in *; lia|]. simpl in Hr. injection Hr as -> <-.
+  destruct (Nat.ltb_spec (S k) (length a + length (x :: b))) as [H|H].
+  - replace (a ++ x :: b) with ((a ++ [x]) ++ b) by now rewrite <- app_assoc.
+    rewrite rotate_app by (rewrite app_length; simpl; lia). now rewrite app_assoc.
+  - simpl in H. assert (b = []) by (destruct b; simpl in *; [auto|lia]). subst b.
+    rewrite rotate_0. reflexivity.
+Qed.
+
+Lemma somes_app {A} (a b : list (option A)) : somes (a ++ b) = somes a ++ somes b.
+Proof. induction a as [|[x|] t IH]; simpl; auto. now rewrite IH. Qed.
+Lemma somes_none {A} n : somes (repeat (@None A) n) = [].
+Proof. induction n; simpl; auto. Qed.
+Lemma somes_some {A} (l : list A) : somes (map Some l) = l.
+Proof. induction l; simpl; auto. now rewrite IHl. Qed.
+
+Lemma lastn_all {A} (l : list A) n : (length l <= n)%nat -> lastn n l = l.
+Proof. intros H. unfold lastn. replace (length l - n)%nat with 0%nat by lia. reflexivity. Qed.
+
+Lemma lastn_length {A} (l : list A) n : length (lastn n l) = Nat.min n (length l).
+Proof. unfold lastn. rewrite skipn_length. lia. Qed.
+
+(* ------------------------------------------------------------------ getz / setz *)
+Lemma setz_ok {A} (l : list A) i f : 0 <= i < zlen l -> setz l i f = Ok (upd_nat l (Z.to_nat i) f).
+Proof.
+  intros H. unfold setz.
+  destruct (Z.ltb_spec i 0); [lia|]. destruct (Z.leb_spec (zlen l) i); [lia|]. reflexivity.
+Qed.
+
+Lemma gorem_small a b : 0 <= a < b -> gorem a b = a.
+Proof. intros. unfold gorem. apply Z.rem_small. lia. Qed.
+Lemma gorem_self a : 0 < a -> gorem a a = 0.
+Proof. intros. unfold gorem. rewrite Z.rem_mod_nonneg by lia. apply Z_mod_same_full. Qed.
+Lemma gorem_wrap a b : 0 < b -> b <= a < 2 * b -> gorem a b = a - b.
+Proof.
+  intros Hb H. unfold gorem. rewrite Z.rem_mod_nonneg by lia.
+  symmetry. apply Z.mod_unique_pos with (q := 1); lia.
+Qed.
+
+Lemma slicez_ok {A} (l : list A) f t : 0 <= f <= t -> t <= zlen l ->
+  slicez l f t = Ok (firstn (Z.to_nat (t - f)) (skipn (Z.to_nat f) l)).
+Proof.
+  intros H1 H2. unfold slicez.
+  destruct (Z.ltb_spec f 0); [lia|]. destruct (Z.ltb_spec t f); [lia|]. destruct (Z.ltb_spec (zlen l) t); [lia|].
+  reflexivity.
+Qed.
+
+(* ------------------------------------------------------------------ ring level: invariant *)
+Definition view (r : rstate) : list (option (Z * exemplar)) := rotate (Z.to_nat (r_next r)) (r_ring r).
+
+Definition RInv (r : rstate) : Prop :=
+  ((r_ring r = [] /\ r_next r = 0) \/ 0 <= r_next r < zlen (r_ring r))
+  /\ exists h, view r = repeat None h ++ map Some (r_kept r).
+
+Lemma r_kept_view r : r_kept r = somes (view r).
+Proof. reflexivity. Qed.
+
+Lemma RInv_new l w : RInv (r_new l w).
+Proof.
+  unfold r_new, RInv, view, r_kept; simpl. rewrite rotate_0. split.
+  - destruct (Z.to_nat (Z.max l 0)) eqn:E; [left; auto|right]. rewrite zlen_repeat. lia.
+  - exists (Z.to_nat (Z.max l 0)). rewrite somes_none. simpl. now rewrite app_nil_r.
+Qed.
+
+Lemma RInv_len r h : view r = repeat None h ++ map Some (r_kept r) ->
+  zlen (r_ring r) = Z.of_nat h + zlen (r_kept r).
+Proof.
+  intros H. unfold zlen at 1. rewrite <- (rotate_length _ (Z.to_nat (r_next r))). fold (view r). rewrite H.
+  rewrite app_length, repeat_length, map_length. unfold zlen. lia.
+Qed.
+
+Lemma kept_le_cap r : RInv r -> zlen (r_kept r) <= zlen (r_ring r).
+Proof. intros [_ [h H]]. rewrite (RInv_len r h H). lia. Qed.
+
+(* ------------------------------------------------------------------ ring level: add *)
+Lemma r_validate_spec r sid e : r_validate r sid e = sp_validate WFixed (r_spec r) sid e.
+Proof. reflexivity. Qed.
+
+Lemma tl_app_single {A} (l : list A) x n : length l = n -> (0 < n)%nat ->
+  lastn n (l ++ [x]) = tl l ++ [x].
+Proof.
+  intros H Hn. unfold lastn. rewrite app_length. simpl.
+  replace (length l + 1 - n)%nat with 1%nat by lia.
+  destruct l; simpl in *; [lia|reflexivity].
+Qed.
+
+(* the view after overwriting its head and advancing: holes first, newest [n] retained *)
+Lemma advance_view {A} (V : list (option A)) h K x n :
+  V = repeat None h ++ map Some K -> length V = n -> (0 < n)%nat ->
+  exists h', tl V ++ [Some x] = repeat None h' ++ map Some (lastn n (K ++ [x])).
+Proof.
+  intros -> Hl Hn. rewrite app_length, repeat_length, map_length in Hl.
+  destruct h as [|h'].
+  - exists 0%nat. simpl in *. rewrite tl_app_single by lia.
+    destruct K; simpl in *; [lia|]. rewrite map_app. reflexivity.
+  - exists h'. simpl. rewrite lastn_all by (rewrite app_length; simpl; lia).
+    rewrite map_app, <- app_assoc. reflexivity.
+Qed.
+
+Lemma somes_holes_first {A} h (K : list A) : somes (repeat None h ++ map Some K) = K.
+Proof. now rewrite somes_app, somes_none, somes_some. Qed.
+
+Lemma r_add_stored r x :
+  RInv r -> r_ring r <> [] ->
+  exists r', (rg <- setz (r_ring r) (r_next r) (fun _ => Some x) ;;
+              Ok (mkR rg (gorem (r_next r + 1) (zlen rg)) (r_win r), AddStored)) = Ok (r', AddStored)
+             /\ RInv r' /\ zlen (r_ring r') = zlen (r_ring r) /\ r_win r' = r_win r
+             /\ r_kept r' = lastn (Z.to_nat (zlen (r_ring r))) (r_kept r ++ [x]).
+Proof.
+  intros [Hn [h Hv]] Hne.
+  destruct Hn as [[E _]|Hn]; [contradiction|].
+  rewrite setz_ok by auto. simpl.
+  set (k := Z.to_nat (r_next r)) in *.
+  set (rg := upd_nat (r_ring r) k (fun _ => Some x)).
+  assert (Hlen : length rg = length (r_ring r)) by apply upd_nat_length.
+  assert (Hk : (k < length (r_ring r))%nat) by (unfold zlen in Hn; lia).
+  assert (Hz : zlen rg = zlen (r_ring r)) by (unfold zlen; now rewrite Hlen).
+  eexists. split; [reflexivity|].
+  assert (Hv1 : rotate k rg = Some x :: tl (view r)).
+  { pose proof (rotate_upd (r_ring r) k 0 (fun _ => Some x) ltac:(lia) ltac:(lia)) as R.
+    rewrite Nat.add_0_r in R. destruct (Nat.ltb_spec k (length (r_ring r))); [|lia].
+    fold rg in R. rewrite R. change (rotate k (r_ring r)) with (view r).
+    destruct (view r) eqn:Ev.
+    - exfalso. apply (f_equal (@length _)) in Ev. unfold view in Ev. rewrite rotate_length in Ev. simpl in Ev. lia.
+    - reflexivity. }
+  set (n' := gorem (r_next r + 1) (zlen rg)).
+  assert (Hn' : Z.to_nat n' = if (S k <? length rg)%nat then S k else 0%nat).
+  { unfold n'. rewrite Hz. destruct (Nat.ltb_spec (S k) (length rg)) as [H|H].
+    - rewrite gorem_small by (unfold zlen; lia). lia.
+    - assert (E : r_next r + 1 = zlen (r_ring r)) by (unfold zlen; lia).
+      rewrite E. rewrite gorem_self by lia. reflexivity. }
+  assert (Hv2 : rotate (Z.to_nat n') rg = tl (view r) ++ [Some x]).
+  { rewrite Hn'. apply rotate_succ; [lia|exact Hv1]. }
+  assert (Hrange : 0 <= n' < zlen rg).
+  { unfold n'. rewrite Hz. destruct (Z.ltb_spec (r_next r + 1) (zlen (r_ring r))).
+    - rewrite gorem_small by lia. lia.
+    - replace (r_next r + 1) with (zlen (r_ring r)) by lia. rewrite gorem_self by lia. lia. }
+  destruct (advance_view (view r) h (r_kept r) x (Z.to_nat (zlen (r_ring r))) Hv) as [h' Hadv].
+  { unfold view. rewrite rotate_length. unfold zlen. lia. }
+  { unfold zlen. lia. }
+  assert (Hk' : r_kept (mkR rg n' (r_win r)) = lastn (Z.to_nat (zlen (r_ring r))) (r_kept r ++ [x])).
+  { unfold r_kept. simpl. rewrite Hv2, Hadv. apply somes_holes_first. }
+  split; [|split; [exact Hz|split; [reflexivity|exact Hk']]].
+  split; [right; exact Hrange|].
+  exists h'. rewrite Hk'. unfold view. simpl. rewrite Hv2. exact Hadv.
+Qed.
+
+Lemma r_add_refines r sid e : RInv r ->
+  exists r' a, r_add r sid e = Ok (r', a) /\ RInv r' /\ sp_add WFixed (r_spec r) sid e = (r_spec r', a).
+Proof.
+  intros HI. unfold r_add, sp_add. rewrite r_validate_spec.
+  destruct (sp_validate WFixed (r_spec r) sid e) eqn:Ev;
+    try (eexists; eexists; split; [reflexivity|split; [exact HI|reflexivity]]).
+  change (sp_kept (r_spec r)) with (r_kept r).
+  destruct (sp_mid_dup (series_list sid (r_kept r)) e).
+  - eexists; eexists; split; [reflexivity|split; [exact HI|reflexivity]].
+  - assert (Hne : r_ring r <> []).
+    { intros E. unfold sp_validate, r_spec in Ev. simpl in Ev. rewrite E in Ev. simpl in Ev. discriminate. }
+    destruct (r_add_stored r (sid, e) HI Hne) as (r' & Hs & HI' & Hz & Hw & Hk).
+    exists r', AddStored. split; [exact Hs|split; [exact HI'|]].
+    unfold r_spec. simpl. rewrite Hz, Hw, Hk. reflexivity.
+Qed.
+
+(* ------------------------------------------------------------------ ring level: resize *)
+Lemma firstn_upd_succ {A} (V : list A) i f : (i < length V)%nat ->
+  exists y, firstn (S i) (upd_nat V i f) = firstn i V ++ [f y] /\
+            forall k, skipn (S i + k) (upd_nat V i f) = skipn (S i + k) V.
+Proof.
+  intros Hi. destruct (split_at V i (Nat.lt_le_incl _ _ Hi)) as (a & b & -> & Ha).
+  destruct b as [|y b]; [rewrite app_length in Hi; simpl in Hi; lia|].
+  exists y. subst i. rewrite upd_nat_app_r by lia. rewrite Nat.sub_diag. simpl upd_nat.
+  assert (E1 : a ++ f y :: b = (a ++ [f y]) ++ b) by now rewrite <- app_assoc.
+  assert (E2 : a ++ y :: b = (a ++ [y]) ++ b) by now rewrite <- app_assoc.
+  split.
+  - rewrite E1. rewrite (firstn_app_len (a ++ [f y]) b) by (rewrite app_length; simpl; lia).
+    rewrite (firstn_app_len a (y :: b)) by auto. reflexivity.
+  - intros k. rewrite E1, E2.
+    rewrite (skipn_app _ (a ++ [f y]) b), (skipn_app _ (a ++ [y]) b).
+    rewrite (skipn_all2 (a ++ [f y])) by (rewrite app_length; simpl; lia).
+    rewrite (skipn_all2 (a ++ [y])) by (rewrite app_length; simpl; lia).
+    rewrite !app_length. reflexivity.
+Qed.
+
+Lemma r_clear_view {A} (n ds : nat) : (ds < n)%nat ->
+  forall k i (rg : list (option A)), length rg = n -> (i + k <= n)%nat ->
+  exists rg', r_clear rg (Z.of_nat n) (Z.of_nat ds) (Z.of_nat i) k = Ok rg' /\ length rg' = n /\
+    rotate ds rg' = firstn i (rotate ds rg) ++ repeat None k ++ skipn (i + k) (rotate ds rg).
+Proof.
+  intros Hds. induction k as [|k IH]; intros i rg Hl Hik.
+  - exists rg. split; [reflexivity|split; [auto|]]. simpl. rewrite Nat.add_0_r. now rewrite firstn_skipn.
+  - simpl.
+    set (p := gorem (Z.of_nat ds + Z.of_nat i) (Z.of_nat n)).
+    assert (Hp : Z.to_nat p = (if (ds + i <? length rg)%nat then (ds + i)%nat else (ds + i - length rg)%nat)
+                 /\ 0 <= p < Z.of_nat n).
+    { unfold p. rewrite Hl. destruct (Nat.ltb_spec (ds + i) n).
+      - rewrite gorem_small by lia. lia.
+      - rewrite gorem_wrap by lia. lia. }
+    destruct Hp as [Hp Hpr].
+    rewrite setz_ok by (unfold zlen; lia). simpl.
+    set (rg1 := upd_nat rg (Z.to_nat p) (fun _ => None)).
+    assert (Hl1 : length rg1 = n) by (unfold rg1; now rewrite upd_nat_length).
+    replace (Z.of_nat i + 1) with (Z.of_nat (S i)) by lia.
+    destruct (IH (S i) rg1 Hl1 ltac:(lia)) as (rg' & Hr & Hl' & Hv).
+    exists rg'. split; [exact Hr|split; [exact Hl'|]].
+    rewrite Hv. unfold rg1. rewrite Hp.
+    rewrite rotate_upd by lia.
+    destruct (firstn_upd_succ (rotate ds rg) i (fun _ => None)) as (y & Hf & Hs).
+    { rewrite rotate_length. lia. }
+    rewrite Hf, Hs. rewrite <- app_assoc. simpl.
+    replace (i + S k)%nat with (S (i + k)) by lia. reflexivity.
+Qed.
+
+Lemma slicez_app3 {A} (a b c : list A) f t : f = zlen a -> t = zlen a + zlen b ->
+  slicez (a ++ b ++ c) f t = Ok b.
+Proof.
+  intros -> ->. pose proof (zlen_nonneg a). pose proof (zlen_nonneg b). pose proof (zlen_nonneg c).
+  rewrite slicez_ok by (rewrite ?zlen_app; lia).
+  rewrite skipn_app_len by (unfold zlen; lia).
+  rewrite firstn_app_len by (unfold zlen; lia). reflexivity.
+Qed.
+
+Lemma copy_shrink {A} (L : list A) (ds diff : Z) :
+  let n := zlen L in
+  let de := gorem (ds + diff) n in
+  0 <= ds < n -> 0 < diff <= n ->
+  (ds = de -> diff = n) /\
+  (ds < de -> r_copy L [(de, n); (0, ds)] = Ok (skipn (Z.to_nat diff) (rotate (Z.to_nat ds) L))) /\
+  (de < ds -> r_copy L [(de, ds)] = Ok (skipn (Z.to_nat diff) (rotate (Z.to_nat ds) L))).
+Proof.
+  intros n de Hds Hdiff.
+  destruct (split_at L (Z.to_nat ds) ltac:(unfold n, zlen in *; lia)) as (a & b & E & Ha).
+  assert (Hn : n = zlen a + zlen b) by (unfold n; rewrite E, zlen_app; lia).
+  assert (Hza : zlen a = ds) by (unfold zlen; lia).
+  destruct (Z.lt_trichotomy (ds + diff) n) as [H|[H|H]].
+  - (* no wrap, de = ds + diff *)
+    assert (Hde : de = ds + diff) by (unfold de; rewrite gorem_small; lia).
+    split; [lia|split; [|lia]]. intros _.
+    destruct (split_at b (Z.to_nat diff) ltac:(unfold zlen in *; lia)) as (b1 & b2 & Eb & Hb1).
+    subst L b. rewrite rotate_app by lia. simpl.
+    replace (a ++ b1 ++ b2) with ((a ++ b1) ++ b2 ++ []) at 1 by (rewrite app_nil_r; now rewrite app_assoc).
+    rewrite slicez_app3; [|rewrite zlen_app; unfold zlen in *; lia| rewrite !zlen_app in *; unfold zlen in *; lia].
+    simpl.
+    replace (a ++ b1 ++ b2) with ([] ++ a ++ (b1 ++ b2)) by reflexivity.
+    rewrite slicez_app3; [|reflexivity|unfold zlen in *; simpl; lia]. simpl.
+    rewrite app_nil_r. rewrite <- app_assoc. rewrite skipn_app_len by lia. reflexivity.
+  - (* ds + diff = n, de = 0 *)
+    assert (Hde : de = 0) by (unfold de; rewrite H; apply gorem_self; lia).
+    split; [lia|split; [lia|]]. intros Hlt.
+    subst L. rewrite rotate_app by lia. simpl. rewrite Hde.
+    replace (a ++ b) with ([] ++ a ++ b) by reflexivity.
+    rewrite slicez_app3; [|reflexivity|unfold zlen in *; simpl; lia]. simpl.
+    rewrite app_nil_r. rewrite skipn_app_len by (unfold zlen in *; lia). reflexivity.
+  - (* wrap: de = ds + diff - n *)
+    assert (Hde : de = ds + diff - n) by (unfold de; rewrite gorem_wrap; lia).
+    split; [lia|split; [lia|]]. intros Hlt.
+    destruct (split_at a (Z.to_nat de) ltac:(unfold zlen in *; lia)) as (a1 & a2 & Ea & Ha1).
+    subst L a. rewrite rotate_app by lia. simpl.
+    rewrite <- app_assoc.
+    rewrite slicez_app3; [|unfold zlen in *; lia|rewrite !zlen_app in *; unfold zlen in *; lia].
+    simpl. rewrite app_nil_r.
+    rewrite app_assoc. rewrite skipn_app_len; [reflexivity|].
+    rewrite !app_length. rewrite !zlen_app in *. unfold zlen in *. lia.
+Qed.
+
+Lemma shrink_view {A} (K : list A) (h diff l : nat) :
+  (diff + l = h + length K)%nat ->
+  exists h', skipn diff (repeat (@None A) h ++ map Some K) = repeat None h' ++ map Some (lastn l K).
+Proof.
+  intros H. destruct (Nat.le_gt_cases diff h) as [Hd|Hd].
+  - exists (h - diff)%nat. rewrite skipn_app, repeat_length.
+    replace (diff - h)%nat with 0%nat by lia. simpl.
+    rewrite lastn_all by lia. f_equal.
+    replace h with (diff + (h - diff))%nat at 1 by lia. rewrite repeat_app.
+    rewrite skipn_app_len by now rewrite repeat_length. reflexivity.
+  - exists 0%nat. rewrite skipn_app, repeat_length.
+    rewrite skipn_all2 by (rewrite repeat_length; lia). simpl.
+    rewrite skipn_map. unfold lastn. do 2 f_equal. lia.
+Qed.
+
+Lemma zmax_if l : (if l <=? 0 then 0 else l) = Z.max l 0.
+Proof. destruct (Z.leb_spec l 0); lia. Qed.
+
+Lemma r_copy_grow {A} (L : list A) (k : Z) : 0 <= k <= zlen L ->
+  r_copy L [(k, zlen L); (0, k)] = Ok (rotate (Z.to_nat k) L).
+Proof.
+  intros Hk. destruct (split_at L (Z.to_nat k) ltac:(unfold zlen in *; lia)) as (a & b & E & Ha).
+  subst L. rewrite rotate_app by lia. simpl.
+  replace (a ++ b) with (a ++ b ++ []) at 1 by now rewrite app_nil_r.
+  rewrite slicez_app3; [|unfold zlen; lia|rewrite zlen_app; unfold zlen; lia]. simpl.
+  replace (a ++ b) with ([] ++ a ++ b) by reflexivity.
+  rewrite slicez_app3; [|reflexivity|unfold zlen in *; simpl; lia]. simpl.
+  now rewrite app_nil_r.
+Qed.
+
+Lemma r_resize_refines r l : RInv r ->
+  exists r' m, r_resize r l = Ok (r', m) /\ RInv r' /\ sp_resize (r_spec r) l = (r_spec r', m).
+Proof.
+  intros HI. pose proof HI as [Hn [h Hv]].
+  pose proof (RInv_len r h Hv) as HL.
+  unfold r_resize, sp_resize. rewrite zmax_if. set (l' := Z.max l 0).
+  change (sp_cap (r_spec r)) with (zlen (r_ring r)). change (sp_kept (r_spec r)) with (r_kept r).
+  change (sp_win (r_spec r)) with (r_win r).
+  set (old := zlen (r_ring r)) in *.
+  assert (Hold : 0 <= old) by apply zlen_nonneg.
+  assert (Hnx : 0 <= r_next r <= old).
+  { destruct Hn as [[E1 E2]|Hn]; [rewrite E2; lia|lia]. }
+  destruct (Z.eqb_spec l' old) as [E|NE].
+  - exists r, 0. split; [reflexivity|split; [exact HI|reflexivity]].
+  - destruct (Z.ltb_spec old l') as [Hg|Hs].
+    + (* grow *)
+      unfold old at 1. rewrite r_copy_grow by (fold old; lia). simpl.
+      fold (view r). set (c := view r).
+      assert (Hc : zlen c = old) by (unfold c, view, zlen; rewrite rotate_length; reflexivity).
+      eexists; eexists. split; [reflexivity|].
+      assert (Hview : view (mkR (c ++ repeat None (Z.to_nat (l' - zlen c))) (zlen c) (r_win r))
+                      = repeat None (Z.to_nat (l' - zlen c) + h) ++ map Some (r_kept r)).
+      { unfold view. simpl. rewrite rotate_app by (unfold zlen; lia).
+        unfold c. rewrite Hv. rewrite app_assoc, <- repeat_app. reflexivity. }
+      assert (Hk : r_kept (mkR (c ++ repeat None (Z.to_nat (l' - zlen c))) (zlen c) (r_win r)) = r_kept r).
+      { rewrite r_kept_view, Hview. apply somes_holes_first. }
+      split; [split|].
+      * right. simpl. rewrite zlen_app, zlen_repeat. lia.
+      * eexists. rewrite Hk. exact Hview.
+      * unfold r_spec. rewrite Hk. simpl. rewrite zlen_app, zlen_repeat.
+        rewrite lastn_all by (unfold zlen in *; lia).
+        replace (zlen c + Z.of_nat (Z.to_nat (l' - zlen c))) with l' by lia.
+        unfold c. rewrite <- r_kept_view. reflexivity.
+    + (* shrink *)
+      assert (Hlt : 0 <= l' < old) by (unfold l' in *; lia).
+      destruct (Z.eqb_spec old 0) as [E0|_]; [lia|].
+      destruct Hn as [[E1 _]|Hn]; [unfold old, zlen in Hlt; rewrite E1 in Hlt; simpl in Hlt; lia|].
+      set (diff := old - l'). set (ds := r_next r) in *.
+      destruct (r_clear_view (Z.to_nat old) (Z.to_nat ds) ltac:(lia) (Z.to_nat diff) 0 (r_ring r)
+                  ltac:(unfold old, zlen; lia) ltac:(unfold diff; lia)) as (rg & Hclr & Hlrg & Hvrg).
+      rewrite !Z2Nat.id in Hclr by lia. change (Z.of_nat 0) with 0 in Hclr. rewrite Hclr. cbn [bind].
+      simpl in Hvrg. fold (view r) in Hvrg.
+      assert (Hzrg : zlen rg = old) by (unfold zlen; lia).
+      pose proof (copy_shrink rg ds diff) as Hcp. cbv zeta in Hcp. rewrite Hzrg in Hcp.
+      destruct (Hcp ltac:(lia) ltac:(unfold diff; lia)) as (Heq & Hlo & Hhi). clear Hcp.
+      set (de := gorem (ds + diff) old) in *.
+      destruct (Z.eqb_spec ds de) as [Ed|Nd].
+      * (* shrink to zero *)
+        assert (l' = 0) by (specialize (Heq Ed); unfold diff in Heq; lia).
+        eexists; eexists. split; [reflexivity|]. rewrite H. simpl.
+        split; [split; [left; auto|exists 0%nat; reflexivity]|].
+        unfold r_spec, r_kept. simpl. unfold lastn. rewrite Nat.sub_0_r, skipn_all. reflexivity.
+      * assert (Hc : (if ds <? de then r_copy rg [(de, old); (0, ds)] else r_copy rg [(de, ds)])
+                     = Ok (skipn (Z.to_nat diff) (view r))).
+        { destruct (Z.ltb_spec ds de); [rewrite Hlo by lia|rewrite Hhi by lia]; rewrite Hvrg;
+            rewrite skipn_app_len by (now rewrite repeat_length); reflexivity. }
+        rewrite Hc. cbn [bind].
+        destruct (Z.eqb_spec l' 0) as [El|Nl].
+        { exfalso. apply Nd. unfold de, diff. rewrite El. replace (ds + (old - 0)) with (ds + old) by lia.
+          rewrite gorem_wrap by lia. lia. }
+        set (c := skipn (Z.to_nat diff) (view r)).
+        assert (Hzc : zlen c = l').
+        { unfold c, zlen. rewrite skipn_length. unfold view. rewrite rotate_length. unfold old, diff, zlen in *. lia. }
+        rewrite Hzc. rewrite Z.sub_diag. simpl. rewrite app_nil_r.
+        rewrite gorem_self by lia.
+        destruct (shrink_view (r_kept r) h (Z.to_nat diff) (Z.to_nat l')) as [h' Hsv].
+        { unfold diff. unfold zlen in HL. fold old in HL. unfold zlen in *. lia. }
+        assert (Hview : view (mkR c 0 (r_win r)) = repeat None h' ++ map Some (lastn (Z.to_nat l') (r_kept r))).
+        { unfold view. simpl. rewrite rotate_0. unfold c. rewrite Hv. exact Hsv. }
+        assert (Hk : r_kept (mkR c 0 (r_win r)) = lastn (Z.to_nat l') (r_kept r)).
+        { rewrite r_kept_view, Hview. apply somes_holes_first. }
+        eexists; eexists. split; [reflexivity|].
+        split; [split|].
+        -- right. simpl. lia.
+        -- exists h'. rewrite Hk. exact Hview.
+        -- unfold r_spec. rewrite Hk. simpl. rewrite Hzc.
+           rewrite <- Hk. unfold r_kept. simpl. rewrite rotate_0. reflexivity.
+Qed.
+
+(* ------------------------------------------------------------------ ring level: histories *)
+Lemma r_step_refines r o : RInv r ->
+  exists r' b, r_step r o = Ok (r', b) /\ RInv r' /\ sp_step WFixed (r_spec r) o = (r_spec r', b).
+Proof.
+  intros HI. destruct o as [sid e|sid e|l|d|lo hi m| |]; simpl.
+  - destruct (r_add_refines r sid e HI) as (r' & a & -> & HI' & ->). simpl. eauto.
+  - eexists; eexists. split; [reflexivity|split; [exact HI|]]. now rewrite r_validate_spec.
+  - destruct (r_resize_refines r l HI) as (r' & m & -> & HI' & ->). simpl. eauto.
+  - eexists; eexists. split; [reflexivity|split; [|reflexivity]]. exact HI.
+  - eexists; eexists. split; [reflexivity|split; [exact HI|reflexivity]].
+  - eexists; eexists. split; [reflexivity|split; [exact HI|reflexivity]].
+  - eexists; eexists. split; [reflexivity|split; [exact HI|reflexivity]].
+Qed.
+
+Lemma r_run_refines ops : forall r, RInv r -> r_run r ops = sp_run WFixed (r_spec r) ops.
+Proof.
+  induction ops as [|o t IH]; intros r HI; simpl; [reflexivity|].
+  destruct (r_step_refines r o HI) as (r' & b & -> & HI' & ->). now rewrite IH.
+Qed.
+
+Lemma r_spec_new l w : r_spec (r_new l w) = sp_new l w.
+Proof.
+  unfold r_spec, r_new, sp_new, r_kept. simpl. rewrite rotate_0, somes_none, zlen_repeat.
+  f_equal. lia.
+Qed.
+
+Lemma ring_refines l w ops : r_run (r_new l w) ops = sp_run WFixed (sp_new l w) ops.
+Proof. rewrite r_run_refines by apply RInv_new. now rewrite r_spec_new. Qed.
+
+(* reachable ring states *)
+Definition r_exec (r : rstate) (ops : list op) : res rstate :=
+  fold_left (fun acc o => r <- acc ;; '(r', _) <- r_step r o ;; Ok r') ops (Ok r).
+
+Lemma r_exec_inv ops : forall r, RInv r -> exists r', r_exec r ops = Ok r' /\ RInv r'.
+Proof.
+  unfold r_exec. induction ops as [|o t IH]; intros r HI; simpl; [eauto|].
+  destruct (r_step_refines r o HI) as (r' & b & -> & HI' & _). simpl. auto.
+Qed.
+
+(* ------------------------------------------------------------------ the window rule *)
+Ltac Zify.zify_post_hook ::= Z.div_mod_to_equations.
+
+Lemma too_old_fixed_ideal w ne e :
+  int64 w -> int64 (e_ts ne) -> int64 (e_ts e) -> e_ts e < e_ts ne ->
+  too_old WFixed w ne e = too_old WIdeal w ne e.
+Proof.
+  unfold int64, minInt64, maxInt64. intros Hw Hn He Hlt. simpl.
+  destruct (Z.leb_spec w 0) as [H0|H0]; simpl.
+  - symmetry. apply Z.leb_le. lia.
+  - assert (E1 : u64 w = w) by (unfold u64, two64; apply Z.mod_small; lia).
+    assert (E2 : u64 (sub64 (e_ts ne) (e_ts e)) = e_ts ne - e_ts e).
+    { unfold u64, sub64, wrap64, two64. lia. }
+    rewrite E1, E2. apply Bool.eq_iff_eq_true. rewrite !Z.leb_le. lia.
+Qed.
+
+Lemma ooo_rule_fixed_ideal w ne e :
+  int64 w -> int64 (e_ts ne) -> int64 (e_ts e) -> ooo_rule WFixed w ne e = ooo_rule WIdeal w ne e.
+Proof.
+  intros Hw Hn He. unfold ooo_rule. destruct (Z.ltb_spec (e_ts e) (e_ts ne)) as [H|H]; [|reflexivity].
+  now rewrite too_old_fixed_ideal.
+Qed.
+
+Lemma validate_fixed_ideal w newest e :
+  int64 w -> int64 (e_ts e) -> (forall ne, newest = Some ne -> int64 (e_ts ne)) ->
+  validate_against WFixed w newest e = validate_against WIdeal w newest e.
+Proof.
+  intros Hw He Hn. unfold validate_against. destruct (lab_too_long 0 (e_lens e)); [reflexivity|].
+  destruct newest as [ne|]; [|reflexivity]. now rewrite ooo_rule_fixed_ideal by auto.
+Qed.
+
+(* the code before the fix disagreed with the documented rule on int64 inputs *)
+Lemma window_wrap_old_refuted : exists w ne e,
+  int64 w /\ int64 (e_ts ne) /\ int64 (e_ts e) /\
+  validate_against WOld w (Some ne) e = VOOO /\ validate_against WIdeal w (Some ne) e = VOk.
+Proof.
+  exists 10, (mkEx 1 [(8, 1)] 7 (Some 1) (minInt64 + 5) true), (mkEx 1 [(8, 1)] 7 (Some 1) (minInt64 + 2) true).
+  repeat split; vm_compute; congruence.
+Qed.
+
+(* ------------------------------------------------------------------ sort_ts *)
+Lemma ins_ts_perm y l : Permutation (ins_ts y l) (y :: l).
+Proof.
+  induction l as [|x t IH]; simpl; [reflexivity|].
+  destruct (e_ts y <? e_ts x); [reflexivity|]. rewrite IH. apply perm_swap.
+Qed.
+
+Lemma fold_ins_perm l : forall acc, Permutation (fold_left (fun acc y => ins_ts y acc) l acc) (acc ++ l).
+Proof.
+  induction l as [|x t IH]; intros acc; simpl; [now rewrite app_nil_r|].
+  rewrite IH. transitivity ((x :: acc) ++ t).
+  - apply Permutation_app_tail, ins_ts_perm.
+  - simpl. apply Permutation_middle.
+Qed.
+
+Lemma sort_ts_perm l : Permutation (sort_ts l) l.
+Proof. unfold sort_ts. now rewrite fold_ins_perm. Qed.
+
+Definition sorted (l : list exemplar) : Prop := StronglySorted (fun a b => e_ts a <= e_ts b) l.
+
+Lemma ins_ts_sorted y l : sorted l -> sorted (ins_ts y l).
+Proof.
+  unfold sorted. induction 1 as [|x t Hs IH Hx]; simpl.
+  - constructor; constructor.
+  - destruct (Z.ltb_spec (e_ts y) (e_ts x)) as [H|H].
+    + constructor; [constructor; auto|]. constructor; [lia|].
+      rewrite Forall_forall in *. intros z Hz. specialize (Hx z Hz). lia.
+    + constructor; [exact IH|]. rewrite Forall_forall in *. intros z Hz.
+      apply (Permutation_in _ (ins_ts_perm y t)) in Hz. destruct Hz as [<-|Hz]; [lia|auto].
+Qed.
+
+Lemma fold_ins_sorted l : forall acc, sorted acc -> sorted (fold_left (fun acc y => ins_ts y acc) l acc).
+Proof. induction l; intros acc H; simpl; auto using ins_ts_sorted. Qed.
+
+Lemma sort_ts_sorted l : sorted (sort_ts l).
+Proof. apply fold_ins_sorted. constructor. Qed.
+
+Lemma filter_sorted f l : sorted l -> sorted (filter f l).
+Proof.
+  unfold sorted. induction 1 as [|x t Hs IH Hx]; simpl; [constructor|].
+  destruct (f x); [|exact IH]. constructor; [exact IH|].
+  rewrite Forall_forall in *. intros z Hz. apply filter_In in Hz. apply Hx, Hz.
+Qed.
+
+Lemma in_series_list sid kept e : In e (series_list sid kept) <-> In (sid, e) kept.
+Proof.
+  unfold series_list. split; intros H.
+  - apply (Permutation_in _ (sort_ts_perm _)) in H. unfold of_series in H.
+    apply in_map_iff in H. destruct H as ([s x] & <- & H). apply filter_In in H. simpl in *.
+    destruct H as [H E]. apply Z.eqb_eq in E. now subst.
+  - apply (Permutation_in _ (Permutation_sym (sort_ts_perm _))). unfold of_series.
+    apply in_map_iff. exists (sid, e). split; [reflexivity|]. apply filter_In. split; [auto|].
+    simpl. apply Z.eqb_refl.
+Qed.
+
+(* ------------------------------------------------------------------ the reference: Select *)
+Lemma in_insert_z k x l : In x (insert_z k l) <-> x = k \/ In x l.
+Proof.
+  induction l as [|y t IH]; simpl; [intuition|].
+  destruct (k <? y); simpl; [intuition|]. rewrite IH. intuition.
+Qed.
+
+Lemma in_fold_insert_z (kept : list (Z * exemplar)) x : forall acc,
+  In x (fold_left (fun acc p => insert_z (fst p) acc) kept acc) <-> In x acc \/ In x (map fst kept).
+Proof.
+  induction kept as [|p t IH]; intros acc; simpl; [intuition|].
+  rewrite IH, in_insert_z. intuition.
+Qed.
+
+Lemma in_dedup_sorted x l : In x (dedup_sorted l) <-> In x l.
+Proof.
+  induction l as [|a t IH]; [simpl; tauto|].
+  destruct t as [|b t']; [simpl; tauto|].
+  change (dedup_sorted (a :: b :: t')) with (if a =? b then dedup_sorted (b :: t') else a :: dedup_sorted (b :: t')).
+  destruct (Z.eqb_spec a b) as [->|N].
+  - rewrite IH. simpl. tauto.
+  - simpl In at 1. rewrite IH. simpl. tauto.
+Qed.
+
+Lemma in_series_ids sid kept : In sid (series_ids kept) <-> exists e, In (sid, e) kept.
+Proof.
+  unfold series_ids. rewrite in_dedup_sorted, in_fold_insert_z. simpl. rewrite in_map_iff. split.
+  - intros [[]|([s e] & <- & H)]. exists e. exact H.
+  - intros [e H]. right. exists (sid, e). auto.
+Qed.
+
+Lemma perm_filter {A} (f : A -> bool) a b : Permutation a b -> Permutation (filter f a) (filter f b).
+Proof.
+  induction 1; simpl.
+  - reflexivity.
+  - destruct (f x); [apply perm_skip|]; assumption.
+  - destruct (f x), (f y); try reflexivity. apply perm_swap.
+  - etransitivity; eassumption.
+Qed.
+
+(* Select is sound: every returned group belongs to a matching series, is non-empty, sorted by
+   timestamp, and is exactly (with multiplicity) the series' retained exemplars in range *)
+Lemma sp_select_sound s lo hi m sid l :
+  In (sid, l) (sp_select s lo hi m) ->
+  In sid m /\ l <> [] /\ sorted l /\
+  Permutation l (filter (in_range lo hi) (of_series sid (sp_kept s))).
+Proof.
+  unfold sp_select. rewrite in_flat_map. intros (sid' & Hin & H).
+  destruct (existsb (Z.eqb sid') m) eqn:Em; [|contradiction].
+  destruct (filter (in_range lo hi) (series_list sid' (sp_kept s))) eqn:Ef; [contradiction|].
+  destruct H as [H|[]]. injection H as <- <-.
+  apply existsb_exists in Em. destruct Em as (x & Hx & E). apply Z.eqb_eq in E. subst x.
+  split; [exact Hx|]. split; [discriminate|]. rewrite <- Ef. split.
+  - apply filter_sorted, sort_ts_sorted.
+  - unfold series_list. apply perm_filter, sort_ts_perm.
+Qed.
+
+(* ... and complete: every retained exemplar of a matching series within the range is returned *)
+Lemma sp_select_complete s lo hi m sid e :
+  In (sid, e) (sp_kept s) -> In sid m -> in_range lo hi e = true ->
+  exists l, In (sid, l) (sp_select s lo hi m) /\ In e l.
+Proof.
+  intros Hk Hm Hr. unfold sp_select.
+  assert (He : In e (filter (in_range lo hi) (series_list sid (sp_kept s)))).
+  { apply filter_In. split; [now apply in_series_list|exact Hr]. }
+  destruct (filter (in_range lo hi) (series_list sid (sp_kept s))) as [|x t] eqn:Ef; [contradiction|].
+  exists (x :: t). split; [|exact He]. apply in_flat_map. exists sid. split.
+  - apply in_series_ids. eauto.
+  - replace (existsb (Z.eqb sid) m) with true.
+    + rewrite Ef. left. reflexivity.
+    + symmetry. apply existsb_exists. exists sid. split; [auto|apply Z.eqb_refl].
+Qed.
+
+(* ------------------------------------------------------------------ the reference: int64 inputs *)
+Definition op_int64 (o : op) : Prop :=
+  match o with
+  | OAdd _ e | OValidate _ e => int64 (e_ts e)
+  | OSetWin d => int64 d
+  | _ => True
+  end.
+Definition SpInt (s : spec) : Prop := int64 (sp_win s) /\ Forall (fun p => int64 (e_ts (snd p))) (sp_kept s).
+
+Lemma last_map_some {A} (l : list A) x : last (map Some l) None = Some x -> In x l.
+Proof.
+  destruct l as [|a t] using rev_ind; simpl; [discriminate|].
+  rewrite map_app. simpl. rewrite last_last. intros [= ->]. apply in_or_app. right. now left.
+Qed.
+
+Lemma Forall_skipn {A} (P : A -> Prop) n l : Forall P l -> Forall P (skipn n l).
+Proof. intros H. rewrite <- (firstn_skipn n l) in H. apply Forall_app in H. tauto. Qed.
+
+Lemma sp_validate_fixed_ideal s sid e : SpInt s -> int64 (e_ts e) ->
+  sp_validate WFixed s sid e = sp_validate WIdeal s sid e.
+Proof.
+  intros [Hw Hk] He. unfold sp_validate. destruct (sp_cap s =? 0); [reflexivity|].
+  apply validate_fixed_ideal; auto. intros ne Hne. apply last_map_some in Hne.
+  apply in_series_list in Hne. rewrite Forall_forall in Hk. apply (Hk (sid, ne) Hne).
+Qed.
+
+Lemma sp_step_fixed_ideal s o : SpInt s -> op_int64 o ->
+  sp_step WFixed s o = sp_step WIdeal s o /\ SpInt (fst (sp_step WIdeal s o)).
+Proof.
+  intros HI Ho. pose proof HI as [Hw Hk]. destruct o as [sid e|sid e|l|d|lo hi m| |]; simpl in *; auto.
+  - unfold sp_add. rewrite sp_validate_fixed_ideal by auto. split; [reflexivity|].
+    destruct (sp_validate WIdeal s sid e); simpl; auto.
+    destruct (sp_mid_dup _ _); simpl; auto. split; [exact Hw|]. simpl.
+    apply Forall_skipn, Forall_app. split; [exact Hk|]. constructor; [exact Ho|constructor].
+  - rewrite sp_validate_fixed_ideal by auto. auto.
+  - split; [reflexivity|]. unfold sp_resize. destruct (_ =? _); simpl; auto.
+    split; [exact Hw|]. simpl. now apply Forall_skipn.
+  - split; [reflexivity|]. split; simpl; auto.
+Qed.
+
+Lemma sp_run_fixed_ideal ops : forall s, SpInt s -> Forall op_int64 ops ->
+  sp_run WFixed s ops = sp_run WIdeal s ops.
+Proof.
+  induction ops as [|o t IH]; intros s HI Ho; simpl; [reflexivity|].
+  inversion Ho as [|? ? Ho1 Ho2]; subst.
+  destruct (sp_step_fixed_ideal s o HI Ho1) as [E HI']. rewrite E.
+  destruct (sp_step WIdeal s o) as [s' b]. simpl in HI'. now rewrite IH.
+Qed.
+
+Lemma SpInt_new l w : int64 w -> SpInt (sp_new l w).
+Proof. intros H. split; simpl; [|constructor]. unfold int64, minInt64, maxInt64 in *. lia. Qed.
+
+(* ------------------------------------------------------------------ the reference: capacity, newest retained *)
+Definition SpCap (s : spec) : Prop := 0 <= sp_cap s /\ zlen (sp_kept s) <= sp_cap s.
+
+Lemma zlen_lastn {A} (l : list A) n : 0 <= n -> zlen (lastn (Z.to_nat n) l) <= n.
+Proof. intros H. unfold zlen. rewrite lastn_length. lia. Qed.
+
+Lemma sp_step_cap k s o : SpCap s -> SpCap (fst (sp_step k s o)).
+Proof.
+  intros [H0 H1]. destruct o as [sid e|sid e|l|d|lo hi m| |]; simpl; try (split; assumption).
+  - unfold sp_add. destruct (sp_validate k s sid e); simpl; try (split; assumption).
+    destruct (sp_mid_dup _ _); simpl; try (split; assumption).
+    split; simpl; [exact H0|]. now apply zlen_lastn.
+  - unfold sp_resize. destruct (_ =? _); simpl; try (split; assumption).
+    split; simpl; [lia|]. apply zlen_lastn. lia.
+Qed.
+
+Lemma sp_exec_cap k ops : forall s, SpCap s -> SpCap (sp_exec k s ops).
+Proof. unfold sp_exec. induction ops; intros s H; simpl; auto using sp_step_cap. Qed.
+
+Lemma SpCap_new l w : SpCap (sp_new l w).
+Proof. split; simpl; [lia|]. unfold zlen. simpl. lia. Qed.
+
+(* the exemplars stored (not rejected, not dropped as duplicates) by a history, in order *)
+Definition stored_of (k : wrule) (s : spec) (o : op) : list (Z * exemplar) :=
+  match o with
+  | OAdd sid e => match snd (sp_add k s sid e) with AddStored => [(sid, e)] | _ => [] end
+  | _ => []
+  end.
+Fixpoint sp_log (k : wrule) (s : spec) (ops : list op) : list (Z * exemplar) :=
+  match ops with
+  | [] => []
+  | o :: t => stored_of k s o ++ sp_log k (fst (sp_step k s o)) t
+  end.
+Definition no_resize (o : op) : Prop := match o with OResize _ => False | _ => True end.
+
+Lemma lastn_lastn_app {A} n (a b : list A) : lastn n (lastn n a ++ b) = lastn n (a ++ b).
+Proof.
+  destruct (Nat.le_gt_cases (length a) n) as [H|H].
+  - now rewrite (lastn_all a) by auto.
+  - destruct (split_at a (length a - n) ltac:(lia)) as (a1 & a2 & -> & H1).
+    rewrite app_length in *.
+    assert (E : lastn n (a1 ++ a2) = a2).
+    { unfold lastn. rewrite app_length. apply skipn_app_len. lia. }
+    rewrite E. unfold lastn. rewrite <- app_assoc. rewrite !app_length.
+    rewrite (skipn_app _ a1). rewrite (skipn_all2 a1) by lia. simpl. f_equal. lia.
+Qed.
+
+Lemma sp_step_kept k s o : no_resize o ->
+  sp_cap (fst (sp_step k s o)) = sp_cap s /\
+  sp_kept (fst (sp_step k s o)) =
+    match stored_of k s o with [] => sp_kept s | st => lastn (Z.to_nat (sp_cap s)) (sp_kept s ++ st) end.
+Proof.
+  destruct o as [sid e|sid e|l|d|lo hi m| |]; simpl; intros H; try contradiction; auto.
+  unfold sp_add. destruct (sp_validate k s sid e); simpl; auto.
+  destruct (sp_mid_dup _ _); simpl; auto.
+Qed.
+
+Lemma sp_retains_newest k ops : forall s, Forall no_resize ops -> zlen (sp_kept s) <= sp_cap s ->
+  sp_cap (sp_exec k s ops) = sp_cap s /\
+  sp_kept (sp_exec k s ops) = lastn (Z.to_nat (sp_cap s)) (sp_kept s ++ sp_log k s ops).
+Proof.
+  unfold sp_exec. induction ops as [|o t IH]; intros s Hn Hc; simpl.
+  - split; [reflexivity|]. rewrite app_nil_r. rewrite lastn_all; [reflexivity|]. unfold zlen in Hc. lia.
+  - inversion Hn as [|? ? Hn1 Hn2]; subst.
+    destruct (sp_step_kept k s o Hn1) as [Ec Ek].
+    assert (Hc' : zlen (sp_kept (fst (sp_step k s o))) <= sp_cap (fst (sp_step k s o))).
+    { rewrite Ec, Ek. destruct (stored_of k s o); [exact Hc|]. apply zlen_lastn.
+      pose proof (zlen_nonneg (sp_kept s)). lia. }
+    destruct (IH _ Hn2 Hc') as [E1 E2]. rewrite E1, E2, Ec, Ek. split; [reflexivity|].
+    destruct (stored_of k s o) eqn:Es.
+    + reflexivity.
+    + rewrite lastn_lastn_app. now rewrite <- app_assoc.
+Qed.
+
+(* ------------------------------------------------------------------ statements used by props/C21.v *)
+Lemma thm_refines_partial : forall l w ops,
+  int64 w -> Forall op_int64 ops ->
+  r_run (r_new l w) ops = sp_run WIdeal (sp_new l w) ops.
+Proof.
+  intros l w ops Hw Ho. rewrite ring_refines. apply sp_run_fixed_ideal; [now apply SpInt_new|exact Ho].
+Qed.
+
+Lemma thm_ring_invariant : forall l w ops, exists r, r_exec (r_new l w) ops = Ok r /\ RInv r.
+Proof. intros. apply r_exec_inv, RInv_new. Qed.
+
+Lemma thm_add_evicts_oldest : forall r sid e r',
+  RInv r -> r_add r sid e = Ok (r', AddStored) ->
+  r_kept r' = lastn (Z.to_nat (zlen (r_ring r))) (r_kept r ++ [(sid, e)]) /\ zlen (r_ring r') = zlen (r_ring r).
+Proof.
+  intros r sid e r' HI H. destruct (r_add_refines r sid e HI) as (r2 & a & H2 & _ & Hs).
+  rewrite H in H2. injection H2 as <- <-.
+  unfold sp_add in Hs. destruct (sp_validate WFixed (r_spec r) sid e); try discriminate.
+  destruct (sp_mid_dup _ _); [discriminate|]. unfold r_spec in Hs. simpl in Hs.
+  injection Hs as Hc Hw Hk. split; [now rewrite <- Hk|now rewrite <- Hc].
+Qed.
+
+Lemma thm_resize_keeps_newest : forall r l, RInv r ->
+  exists r' m, r_resize r l = Ok (r', m) /\ RInv r' /\
+    zlen (r_ring r') = Z.max l 0 /\
+    r_kept r' = lastn (Z.to_nat (Z.max l 0)) (r_kept r) /\ r_win r' = r_win r.
+Proof.
+  intros r l HI. destruct (r_resize_refines r l HI) as (r' & m & H & HI' & Hs).
+  exists r', m. split; [exact H|split; [exact HI'|]].
+  unfold sp_resize in Hs. change (sp_cap (r_spec r)) with (zlen (r_ring r)) in Hs.
+  destruct (Z.eqb_spec (Z.max l 0) (zlen (r_ring r))) as [E|N].
+  - unfold r_spec in Hs. injection Hs as H1 H2 H3 _. rewrite <- H1, <- H2, <- H3, E. repeat split.
+    symmetry. apply lastn_all. pose proof (kept_le_cap r HI). unfold zlen in *. lia.
+  - unfold r_spec in Hs. simpl in Hs. injection Hs as H1 H2 H3 _. now rewrite <- H1, <- H2, <- H3.
+Qed.
+
+Lemma thm_retains_newest : forall l w ops, Forall no_resize ops ->
+  sp_kept (sp_exec WIdeal (sp_new l w) ops) = lastn (Z.to_nat (Z.max l 0)) (sp_log WIdeal (sp_new l w) ops).
+Proof.
+  intros l w ops Hn. destruct (sp_retains_newest WIdeal ops (sp_new l w) Hn) as [_ H].
+  - simpl. unfold zlen. simpl. lia.
+  - exact H.
+Qed.
+
+Lemma thm_capacity : forall l w ops,
+  zlen (sp_kept (sp_exec WIdeal (sp_new l w) ops)) <= sp_cap (sp_exec WIdeal (sp_new l w) ops).
+Proof. intros. apply sp_exec_cap, SpCap_new. Qed.
+
+Lemma thm_window_rule : forall w ne e, int64 w -> int64 (e_ts ne) -> int64 (e_ts e) ->
+  validate_against WFixed w (Some ne) e = validate_against WIdeal w (Some ne) e.
+Proof. intros. apply validate_fixed_ideal; auto. now intros ? [= <-]. Qed.
+
+(* non-vacuity: a history with out-of-order insertion, eviction, duplicates, shrink and grow *)
+Definition ex1 (ts v : Z) : exemplar := mkEx 1 [(8, 1)] 7 (Some v) ts true.
+Definition demo_ops : list op :=
+  [OAdd 0 (ex1 100 1); OAdd 0 (ex1 110 1); OAdd 0 (ex1 120 1); OAdd 0 (ex1 105 1); OAdd 0 (ex1 105 2);
+   OAdd 1 (ex1 90 1); OAdd 0 (ex1 20 1); OResize 2; OAdd 1 (ex1 95 1); OResize 4; OIter;
+   OSelect 0 200 [0; 1]].
+Lemma demo_nonvacuous :
+  Forall op_int64 demo_ops /\
+  r_run (r_new 3 50) demo_ops =
+    [BErr VOk; BErr VOk; BErr VOk; BErr VOk; BErr VOk; BErr VOk; BErr VOOO; BInt 2; BErr VOk; BInt 2;
+     BIter [(1, ex1 90 1); (1, ex1 95 1)]; BSel [(1, [ex1 90 1; ex1 95 1])]] /\
+  run (new_state 3 50) demo_ops = r_run (r_new 3 50) demo_ops.
+Proof.
+  split; [|split; vm_compute; reflexivity].
+  apply Forall_forall. intros o Ho. simpl in Ho.
+  repeat (destruct Ho as [<-|Ho]; [simpl; unfold int64, minInt64, maxInt64; simpl; try lia; exact I|]).
+  contradiction.
+Qed.
+
+(* ------------------------------------------------------------------ pointer level: reads in a well-formed state *)
+Definition abs_slot (s : slot) : option (Z * exemplar) :=
+  match s_ref s with Some sid => Some (sid, s_ex s) | None => None end.
+
+Lemma abs_ring_ring st : r_ring (abs_ring st) = map abs_slot (ring st).
+Proof. reflexivity. Qed.
+
+Lemma getz_rotate {A B} (f : A -> B) (r : list A) idx : 0 <= idx < zlen r ->
+  exists s t, getz r idx = Ok s /\ rotate (Z.to_nat idx) (map f r) = f s :: t.
+Proof.
+  intros H. destruct (split_at r (Z.to_nat idx) ltac:(unfold zlen in H; lia)) as (a & b & -> & Ha).
+  destruct b as [|s b]; [rewrite zlen_app in H; unfold zlen in *; simpl in *; lia|].
+  exists s, (map f b ++ map f a). split.
+  - unfold getz. destruct (Z.ltb_spec idx 0); [lia|].
+    rewrite nth_error_app2 by lia. rewrite Ha, Nat.sub_diag. reflexivity.
+  - rewrite map_app. rewrite rotate_app by now rewrite map_length. reflexivity.
+Qed.
+
+Lemma iter_loop_correct r ix : forall k idx, 0 <= idx < zlen r -> (k <= length r)%nat ->
+  iter_loop r ix idx k = Ok (somes (firstn k (rotate (Z.to_nat idx) (map abs_slot r)))).
+Proof.
+  induction k as [|k IH]; intros idx Hi Hk; [reflexivity|].
+  simpl iter_loop. destruct (getz_rotate abs_slot r idx Hi) as (s & t & -> & Hr). cbn [bind].
+  set (idx' := gorem (idx + 1) (zlen r)).
+  assert (Hi' : 0 <= idx' < zlen r /\ Z.to_nat idx' = if (S (Z.to_nat idx) <? length (map abs_slot r))%nat then S (Z.to_nat idx) else 0%nat).
+  { unfold idx'. rewrite map_length. destruct (Nat.ltb_spec (S (Z.to_nat idx)) (length r)).
+    - rewrite gorem_small by (unfold zlen; lia). unfold zlen. lia.
+    - replace (idx + 1) with (zlen r) by (unfold zlen in *; lia). rewrite gorem_self by lia. lia. }
+  destruct Hi' as [Hi' Hn'].
+  rewrite (IH idx' Hi' ltac:(lia)). cbn [bind].
+  pose proof (rotate_succ (map abs_slot r) (Z.to_nat idx) (abs_slot s) t
+                ltac:(rewrite map_length; unfold zlen in Hi; lia) Hr) as Hs.
+  rewrite <- Hn' in Hs. rewrite Hs, Hr.
+  assert (Ht : length t = (length r - 1)%nat).
+  { apply (f_equal (@length _)) in Hr. rewrite rotate_length, map_length in Hr. simpl in Hr. lia. }
+  rewrite firstn_app. replace (k - length t)%nat with 0%nat by lia.
+  change (firstn 0 [abs_slot s]) with (@nil (option (Z * exemplar))). rewrite app_nil_r.
+  simpl. unfold abs_slot. destruct (s_ref s); reflexivity.
+Qed.
+
+(* IterateExemplars returns the retained exemplars in ingestion order *)
+Lemma iterate_correct st :
+  ((zlen (ring st) = 0 /\ nexti st = 0) \/ 0 <= nexti st < zlen (ring st)) ->
+  iterate st = Ok (r_kept (abs_ring st)).
+Proof.
+  intros [[H0 Hn]|H]; unfold iterate, r_kept.
+  - destruct (ring st) eqn:E; [|unfold zlen in H0; simpl in H0; lia].
+    unfold abs_ring. rewrite E, Hn. reflexivity.
+  - rewrite iter_loop_correct by (auto; lia). simpl.
+    rewrite firstn_all2 by (rewrite rotate_length, map_length; lia). reflexivity.
+Qed.
+
+Lemma ex_eqb_eq a b : ex_eqb a b = true -> a = b.
+Proof.
+  unfold ex_eqb. rewrite !andb_true_iff. intros [[[[[H1 H2] H3] H4] H5] H6].
+  destruct a as [l1 n1 h1 v1 t1 b1], b as [l2 n2 h2 v2 t2 b2]; simpl in *.
+  apply Z.eqb_eq in H1, H3, H5. apply Bool.eqb_prop in H6. subst.
+  assert (v1 = v2) by (destruct v1, v2; simpl in H4; try discriminate; [apply Z.eqb_eq in H4; now subst|reflexivity]).
+  subst. f_equal. clear -H2. revert n2 H2. induction n1 as [|[x y] t IH]; intros [|[x' y'] t'] H; simpl in H; try discriminate; auto.
+  rewrite !andb_true_iff in H. destruct H as [[Hx Hy] Ht]. apply Z.eqb_eq in Hx, Hy. subst. f_equal. auto.
+Qed.
+
+Lemma list_eqb_eq {A} (f : A -> A -> bool) : (forall a b, f a b = true -> a = b) ->
+  forall a b, list_eqb f a b = true -> a = b.
+Proof.
+  intros Hf. induction a as [|x a IH]; intros [|y b] H; simpl in H; try discriminate; auto.
+  apply andb_true_iff in H. destruct H as [H1 H2]. f_equal; auto.
+Qed.
+
+Lemma chain_from_last fuel r : forall i ps, chain_from fuel r i = Some ps -> ps <> [] ->
+  exists s, getz r (last ps noEx) = Ok s /\ slot_at r (last ps noEx) = s.
+Proof.
+  induction fuel as [|f IH]; intros i ps H Hne; simpl in H; [discriminate|].
+  destruct (i =? noEx); [injection H as <-; contradiction|].
+  destruct (getz r i) as [s| | |] eqn:Eg; try discriminate.
+  destruct (chain_from f r (s_next s)) as [t|] eqn:Ec; [|discriminate]. injection H as <-.
+  destruct t as [|p t'].
+  - simpl. exists s. split; [exact Eg|]. unfold slot_at. now rewrite Eg.
+  - destruct (IH _ _ Ec ltac:(discriminate)) as (s' & H1 & H2). exists s'. split; exact H1 || exact H2.
+Qed.
+
+Lemma last_map {A B} (f : A -> B) l d : l <> [] -> last (map f l) (f d) = f (last l d).
+Proof.
+  induction l as [|x t IH]; intros H; [contradiction|]. destruct t as [|y t']; [reflexivity|].
+  change (last (f x :: map f (y :: t')) (f d)) with (last (map f (y :: t')) (f d)).
+  change (last (x :: y :: t') d) with (last (y :: t') d). apply IH. discriminate.
+Qed.
+
+Lemma last_indep {A} (l : list A) d d' : l <> [] -> last l d = last l d'.
+Proof.
+  induction l as [|x t IH]; intros H; [contradiction|]. destruct t; [reflexivity|].
+  apply IH. discriminate.
+Qed.
+
+Lemma ix_get_in ix k v : ix_get ix k = Some v -> In (k, v) ix.
+Proof.
+  induction ix as [|[k' v'] t IH]; simpl; [discriminate|].
+  destruct (Z.eqb_spec k' k) as [->|N]; [intros [= ->]; now left|intros H; right; auto].
+Qed.
+
+(* ValidateExemplar in a well-formed state decides by the ring-level rule *)
+Lemma validate_op_correct st sid e : wfb st = true ->
+  validate_op st sid e = Ok (r_validate (abs_ring st) sid e).
+Proof.
+  unfold wfb. rewrite !andb_true_iff. intros [[[[[Hrange Hholes] Hnd] Hchains] Hkept] Hcount].
+  unfold validate_op, validate, r_validate.
+  change (zlen (r_ring (abs_ring st))) with (zlen (map abs_slot (ring st))).
+  assert (Ez : zlen (map abs_slot (ring st)) = zlen (ring st)) by (unfold zlen; now rewrite map_length).
+  rewrite Ez. destruct (zlen (ring st) =? 0); [reflexivity|].
+  change (r_win (abs_ring st)) with (window st).
+  set (kept := r_kept (abs_ring st)) in *.
+  destruct (ix_get (index st) sid) as [[o n]|] eqn:Eg.
+  - apply ix_get_in in Eg. rewrite forallb_forall in Hchains. specialize (Hchains _ Eg).
+    unfold chain_ok in Hchains.
+    destruct (chain_from (S (length (ring st))) (ring st) o) as [ps|] eqn:Ec; [|discriminate].
+    rewrite !andb_true_iff in Hchains. destruct Hchains as [[[[Hne Hlast] Hprev] Hrefs] Hlist].
+    assert (Hps : ps <> []) by (destruct ps; [discriminate|discriminate]).
+    apply Z.eqb_eq in Hlast.
+    destruct (chain_from_last _ _ _ _ Ec Hps) as (s & Hg & Hs). rewrite Hlast in Hg, Hs.
+    apply (list_eqb_eq ex_eqb ex_eqb_eq) in Hlist.
+    unfold validate_against. destruct (lab_too_long 0 (e_lens e)); [reflexivity|].
+    rewrite Hg. cbn [bind]. rewrite <- Hlist.
+    assert (El : last (map Some (map (fun p => s_ex (slot_at (ring st) p)) ps)) None = Some (s_ex s)).
+    { rewrite map_map. rewrite (last_indep _ None (Some (s_ex (slot_at (ring st) noEx)))) by (destruct ps; [contradiction|discriminate]).
+      rewrite (last_map (fun p => Some (s_ex (slot_at (ring st) p))) ps noEx Hps). now rewrite Hlast, Hs. }
+    rewrite El. reflexivity.
+  - assert (El : series_list sid kept = []).
+    { unfold series_list, of_series.
+      replace (filter (fun p => fst p =? sid) kept) with (@nil (Z * exemplar)); [reflexivity|].
+      symmetry. rewrite forallb_forall in Hkept. clear -Hkept Eg.
+      induction kept as [|p t IH]; [reflexivity|]. simpl.
+      destruct (Z.eqb_spec (fst p) sid) as [E|N].
+      - specialize (Hkept p (or_introl eq_refl)). rewrite E, Eg in Hkept. discriminate.
+      - apply IH. intros x Hx. apply Hkept. now right. }
+    rewrite El. reflexivity.
+Qed.
+
+(* ------------------------------------------------------------------ pointer level: Select in a well-formed state *)
+Definition keylt {A} (a b : Z * A) : Prop := fst a < fst b.
+
+Lemma sorted_key_ext {A} (l1 l2 : list (Z * A)) :
+  StronglySorted keylt l1 -> StronglySorted keylt l2 -> (forall x, In x l1 <-> In x l2) -> l1 = l2.
+Proof.
+  intros H1. revert l2. induction H1 as [|a t1 Hs1 IH Ha]; intros l2 H2 Hin.
+  - destruct l2 as [|b t2]; [reflexivity|]. exfalso. apply (Hin b). now left.
+  - destruct H2 as [|b t2 Hs2 Hb].
+    + exfalso. apply (Hin a). now left.
+    + rewrite Forall_forall in Ha, Hb.
+      assert (a = b).
+      { destruct (proj1 (Hin a) (or_introl eq_refl)) as [E|Hin2]; [auto|].
+        destruct (proj2 (Hin b) (or_introl eq_refl)) as [E|Hin1]; [auto|].
+        specialize (Ha _ Hin1). specialize (Hb _ Hin2). unfold keylt in *. lia. }
+      subst b. f_equal. apply IH; [exact Hs2|].
+      intros x. split; intros Hx.
+      * destruct (proj1 (Hin x) (or_intror Hx)) as [E|H]; [|exact H].
+        subst x. specialize (Ha _ Hx). unfold keylt in Ha. lia.
+      * destruct (proj2 (Hin x) (or_intror Hx)) as [E|H]; [|exact H].
+        subst x. specialize (Hb _ Hx). unfold keylt in Hb. lia.
+Qed.
+
+Lemma insert_by_key_in {A} k (v : A) l x : In x (insert_by_key k v l) <-> x = (k, v) \/ In x l.
+Proof.
+  induction l as [|[k' v'] t IH]; simpl; [intuition|].
+  destruct (k <? k'); simpl; [intuition|]. rewrite IH. intuition.
+Qed.
+
+Definition keyle {A} (a b : Z * A) : Prop := fst a <= fst b.
+
+Lemma insert_by_key_sorted {A} k (v : A) l : StronglySorted keyle l -> StronglySorted keyle (insert_by_key k v l).
+Proof.
+  induction 1 as [|[k' v'] t Hs IH Hx]; simpl.
+  - constructor; constructor.
+  - destruct (Z.ltb_spec k k').
+    + constructor; [constructor; auto|]. constructor; [unfold keyle; simpl; lia|].
+      rewrite Forall_forall in *. intros z Hz. specialize (Hx z Hz). unfold keyle in *. simpl in *. lia.
+    + constructor; [exact IH|]. rewrite Forall_forall in *. intros z Hz.
+      apply insert_by_key_in in Hz. destruct Hz as [->|Hz]; [unfold keyle; simpl; lia|auto].
+Qed.
+
+Lemma sort_by_key_spec {A} (l : list (Z * A)) :
+  StronglySorted keyle (sort_by_key l) /\ (forall x, In x (sort_by_key l) <-> In x l).
+Proof.
+  unfold sort_by_key.
+  assert (G : forall acc, StronglySorted keyle acc ->
+            StronglySorted keyle (fold_left (fun acc p => insert_by_key (fst p) (snd p) acc) l acc) /\
+            (forall x, In x (fold_left (fun acc p => insert_by_key (fst p) (snd p) acc) l acc) <-> In x acc \/ In x l)).
+  { induction l as [|[k v] t IH]; intros acc Ha; simpl; [intuition|].
+    destruct (IH (insert_by_key k v acc) (insert_by_key_sorted k v acc Ha)) as [S1 S2]. split; [exact S1|].
+    intros x. rewrite S2, insert_by_key_in. intuition. }
+  destruct (G [] (SSorted_nil _)) as [S1 S2]. split; [exact S1|]. intros x. rewrite S2. simpl. tauto.
+Qed.
+
+(* non-strictly sorted by key with distinct keys is strictly sorted *)
+Lemma keyle_nodup_strict {A} (l : list (Z * A)) :
+  StronglySorted keyle l -> NoDup (map fst l) -> StronglySorted keylt l.
+Proof.
+  induction 1 as [|a t Hs IH Ha]; intros Hnd; [constructor|].
+  simpl in Hnd. inversion Hnd as [|? ? Hni Hnd']; subst.
+  constructor; [auto|]. rewrite Forall_forall in *. intros z Hz. specialize (Ha z Hz).
+  unfold keyle, keylt in *. assert (fst a <> fst z); [|lia].
+  intros E. apply Hni. rewrite E. now apply in_map.
+Qed.
+
+(* what the walk over a chain collects *)
+Fixpoint walk_list (lo hi : Z) (l : list exemplar) : list exemplar :=
+  match l with
+  | [] => []
+  | x :: t => if e_ts x <=? hi then (if lo <=? e_ts x then [x] else []) ++ walk_list lo hi t else []
+  end.
+
+Lemma walk_list_sorted lo hi l : sorted l -> walk_list lo hi l = filter (in_range lo hi) l.
+Proof.
+  unfold sorted. induction 1 as [|x t Hs IH Hx]; simpl; [reflexivity|].
+  unfold in_range at 1. destruct (Z.leb_spec (e_ts x) hi) as [H|H].
+  - rewrite IH. destruct (lo <=? e_ts x); reflexivity.
+  - rewrite andb_false_r. symmetry.
+    rewrite Forall_forall in Hx. clear -Hx H. induction t as [|y t IH]; [reflexivity|]. simpl.
+    assert (in_range lo hi y = false).
+    { unfold in_range. specialize (Hx y (or_introl eq_refl)). destruct (Z.leb_spec (e_ts y) hi); [lia|]. apply andb_false_r. }
+    rewrite H0. apply IH. intros z Hz. apply Hx. now right.
+Qed.
+
+Lemma sel_walk_chain r lo hi : forall fuel p t s acc,
+  chain_from fuel r p = Some (p :: t) -> getz r p = Ok s ->
+  sel_walk fuel r lo hi s acc = Ok (acc ++ walk_list lo hi (map (fun q => s_ex (slot_at r q)) (p :: t))).
+Proof.
+  induction fuel as [|f IH]; intros p t s acc Hc Hg; [discriminate|].
+  simpl in Hc. destruct (p =? noEx) eqn:Ep; [discriminate|]. rewrite Hg in Hc.
+  destruct (chain_from f r (s_next s)) as [t'|] eqn:Ec; [|discriminate]. injection Hc as <-.
+  assert (Es : slot_at r p = s) by (unfold slot_at; now rewrite Hg).
+  cbn [sel_walk map walk_list]. rewrite Es.
+  destruct (Z.leb_spec (e_ts (s_ex s)) hi) as [H|H]; [|now rewrite app_nil_r].
+  destruct f as [|f']; [discriminate|].
+  destruct (Z.eqb_spec (s_next s) noEx) as [En|Nn].
+  - simpl in Ec. rewrite En in Ec. simpl in Ec. injection Ec as <-. simpl. rewrite app_nil_r.
+    destruct (lo <=? e_ts (s_ex s)); [reflexivity|now rewrite app_nil_r].
+  - pose proof Ec as Ec'. simpl in Ec'. destruct (s_next s =? noEx) eqn:E2; [apply Z.eqb_eq in E2; contradiction|].
+    destruct (getz r (s_next s)) as [s'| | |] eqn:Eg'; try discriminate.
+    destruct (chain_from f' r (s_next s')) as [t''|] eqn:Ec''; [|discriminate]. injection Ec' as <-.
+    cbn [bind]. rewrite (IH (s_next s) t'' s' _ Ec Eg').
+    destruct (lo <=? e_ts (s_ex s)); simpl; [rewrite <- app_assoc; reflexivity|reflexivity].
+Qed.
+
+Lemma insert_by_key_strict {A} k (v : A) l :
+  StronglySorted keylt l -> ~ In k (map fst l) -> StronglySorted keylt (insert_by_key k v l).
+Proof.
+  induction 1 as [|[k' v'] t Hs IH Hx]; simpl; intros Hni.
+  - constructor; constructor.
+  - destruct (Z.ltb_spec k k').
+    + constructor; [constructor; auto|]. constructor; [unfold keylt; simpl; lia|].
+      rewrite Forall_forall in *. intros z Hz. specialize (Hx z Hz). unfold keylt in *. simpl in *. lia.
+    + constructor; [apply IH; tauto|]. rewrite Forall_forall in *. intros z Hz.
+      apply insert_by_key_in in Hz. destruct Hz as [->|Hz]; [unfold keylt; simpl; lia|auto].
+Qed.
+
+Lemma sort_by_key_strict {A} (l : list (Z * A)) : NoDup (map fst l) ->
+  StronglySorted keylt (sort_by_key l) /\ (forall x, In x (sort_by_key l) <-> In x l).
+Proof.
+  unfold sort_by_key. intros Hnd.
+  assert (G : forall acc, StronglySorted keylt acc -> (forall k, In k (map fst l) -> ~ In k (map fst acc)) ->
+            StronglySorted keylt (fold_left (fun acc p => insert_by_key (fst p) (snd p) acc) l acc) /\
+            (forall x, In x (fold_left (fun acc p => insert_by_key (fst p) (snd p) acc) l acc) <-> In x acc \/ In x l)).
+  { induction l as [|[k v] t IH]; intros acc Ha Hd; simpl; [intuition|].
+    simpl in Hnd. inversion Hnd as [|? ? Hni Hnd']; subst.
+    destruct (IH Hnd' (insert_by_key k v acc)) as [S1 S2].
+    - apply insert_by_key_strict; [exact Ha|]. apply Hd. now left.
+    - intros k' Hk' Hin. apply in_map_iff in Hin. destruct Hin as ([k2 v2] & E & Hin). simpl in E. subst k2.
+      apply insert_by_key_in in Hin. destruct Hin as [[= -> ->]|Hin]; [contradiction|].
+      apply (Hd k'); [now right|]. apply in_map_iff. exists (k', v2). auto.
+    - split; [exact S1|]. intros x. rewrite S2, insert_by_key_in. simpl. intuition. }
+  destruct (G [] (SSorted_nil _)) as [S1 S2]; [intros k _ []|]. split; [exact S1|]. intros x. rewrite S2. simpl. tauto.
+Qed.
+
+Lemma insert_z_sorted k l : StronglySorted Z.le l -> StronglySorted Z.le (insert_z k l).
+Proof.
+  induction 1 as [|x t Hs IH Hx]; simpl.
+  - constructor; constructor.
+  - destruct (Z.ltb_spec k x).
+    + constructor; [constructor; auto|]. constructor; [lia|].
+      rewrite Forall_forall in *. intros z Hz. specialize (Hx z Hz). lia.
+    + constructor; [exact IH|]. rewrite Forall_forall in *. intros z Hz.
+      apply in_insert_z in Hz. destruct Hz as [->|Hz]; [lia|auto].
+Qed.
+
+Lemma dedup_sorted_strict l : StronglySorted Z.le l -> StronglySorted Z.lt (dedup_sorted l).
+Proof.
+  induction 1 as [|a t Hs IH Ha]; [constructor|].
+  destruct t as [|b t']; [constructor; constructor|].
+  change (dedup_sorted (a :: b :: t')) with (if a =? b then dedup_sorted (b :: t') else a :: dedup_sorted (b :: t')).
+  destruct (Z.eqb_spec a b) as [->|N]; [exact IH|].
+  constructor; [exact IH|]. rewrite Forall_forall in *. intros z Hz. apply (proj1 (in_dedup_sorted _ _)) in Hz.
+  inversion Hs as [|? ? _ Hb]; subst. rewrite Forall_forall in Hb.
+  destruct Hz as [<-|Hz]; [specialize (Ha b (or_introl eq_refl)); lia|].
+  specialize (Hb z Hz). specialize (Ha b (or_introl eq_refl)). lia.
+Qed.
+
+Lemma series_ids_strict kept : StronglySorted Z.lt (series_ids kept).
+Proof.
+  unfold series_ids. apply dedup_sorted_strict.
+  assert (G : forall acc, StronglySorted Z.le acc ->
+              StronglySorted Z.le (fold_left (fun acc (p : Z * exemplar) => insert_z (fst p) acc) kept acc)).
+  { induction kept as [|p t IH]; intros acc Ha; simpl; auto using insert_z_sorted. }
+  apply G. constructor.
+Qed.
+
+Lemma flat_map_key_strict {A} (g : Z -> list (Z * A)) ids :
+  (forall k, g k = [] \/ exists v, g k = [(k, v)]) -> StronglySorted Z.lt ids ->
+  StronglySorted keylt (flat_map g ids).
+Proof.
+  intros Hg. induction 1 as [|a t Hs IH Ha]; simpl; [constructor|].
+  destruct (Hg a) as [->|[v ->]]; simpl; [exact IH|].
+  constructor; [exact IH|]. rewrite Forall_forall in *. intros z Hz.
+  apply in_flat_map in Hz. destruct Hz as (k & Hk & Hz). specialize (Ha k Hk).
+  destruct (Hg k) as [E|[v' E]]; rewrite E in Hz; [contradiction|].
+  destruct Hz as [<-|[]]. unfold keylt. simpl. lia.
+Qed.
+
+Lemma sorted_le_last l d : sorted l -> forall x, In x l -> e_ts x <= e_ts (last l d).
+Proof.
+  unfold sorted. induction 1 as [|a t Hs IH Ha]; intros x Hin; [contradiction|].
+  destruct t as [|b t'].
+  - destruct Hin as [<-|[]]. simpl. lia.
+  - change (last (a :: b :: t') d) with (last (b :: t') d).
+    destruct Hin as [<-|Hin]; [|auto].
+    rewrite Forall_forall in Ha. specialize (Ha b (or_introl eq_refl)).
+    specialize (IH b (or_introl eq_refl)). lia.
+Qed.
+
+Lemma not_in_nil_filter {A} (f : A -> bool) l : (forall x, In x l -> f x = false) -> filter f l = [].
+Proof.
+  induction l as [|a t IH]; intros H; [reflexivity|]. simpl. rewrite (H a (or_introl eq_refl)).
+  apply IH. intros x Hx. apply H. now right.
+Qed.
+
+Section SelectWF.
+  Variables (st : state) (lo hi : Z) (m : list Z).
+  Let kept := r_kept (abs_ring st).
+  Definition selF (sid : Z) : list exemplar := filter (in_range lo hi) (series_list sid kept).
+  Definition selG (sid : Z) : list (Z * list exemplar) :=
+    if existsb (Z.eqb sid) m then match selF sid with [] => [] | l => [(sid, l)] end else [].
+
+  Lemma selG_shape k : selG k = [] \/ exists v, selG k = [(k, v)].
+  Proof. unfold selG. destruct (existsb _ m); [|now left]. destruct (selF k); [now left|right; eauto]. Qed.
+
+  Lemma sel_loop_correct ix :
+    forallb (chain_ok st kept) ix = true ->
+    sel_loop st lo hi m ix = Ok (flat_map (fun e => selG (fst e)) ix).
+  Proof.
+    induction ix as [|[sid [o n]] t IH]; intros Hc; [reflexivity|].
+    cbn [forallb] in Hc. apply andb_true_iff in Hc. destruct Hc as [Hc Ht]. specialize (IH Ht).
+    unfold chain_ok in Hc.
+    destruct (chain_from (S (length (ring st))) (ring st) o) as [ps|] eqn:Ec; [|discriminate].
+    rewrite !andb_true_iff in Hc. destruct Hc as [[[[Hne Hlast] Hprev] Hrefs] Hlist].
+    apply Z.eqb_eq in Hlast. apply (list_eqb_eq ex_eqb ex_eqb_eq) in Hlist.
+    destruct ps as [|p ps']; [discriminate|].
+    assert (Hp : p = o /\ exists e, getz (ring st) o = Ok e).
+    { simpl in Ec. destruct (o =? noEx); [discriminate|].
+      destruct (getz (ring st) o) as [e| | |]; try discriminate.
+      destruct (chain_from _ _ _); [|discriminate]. injection Ec as -> _. eauto. }
+    destruct Hp as [-> [e Hge]].
+    destruct (chain_from_last _ _ _ _ Ec ltac:(discriminate)) as (en & Hgn & Hsn). rewrite Hlast in Hgn, Hsn.
+    assert (Hso : slot_at (ring st) o = e) by (unfold slot_at; now rewrite Hge).
+    assert (Hsorted : sorted (series_list sid kept)) by apply sort_ts_sorted.
+    assert (HF : selF sid = walk_list lo hi (series_list sid kept)) by (unfold selF; now rewrite walk_list_sorted).
+    cbn [sel_loop flat_map fst]. rewrite Hge. cbn [bind].
+    destruct (Z.ltb_spec hi (e_ts (s_ex e))) as [H1|H1].
+    - cbn [bind]. rewrite IH.
+      assert (E : selG sid = []).
+      { unfold selG. rewrite HF, <- Hlist. simpl. rewrite Hso.
+        destruct (Z.leb_spec (e_ts (s_ex e)) hi); [lia|]. now destruct (existsb _ m). }
+      now rewrite E.
+    - rewrite Hgn. cbn [bind].
+      destruct (Z.ltb_spec (e_ts (s_ex en)) lo) as [H2|H2].
+      + rewrite IH.
+        assert (E : selG sid = []).
+        { unfold selG, selF.
+          replace (filter (in_range lo hi) (series_list sid kept)) with (@nil exemplar); [now destruct (existsb _ m)|].
+          symmetry. apply not_in_nil_filter. intros x Hx.
+          pose proof (sorted_le_last _ zero_ex Hsorted x Hx) as Hle.
+          rewrite <- Hlist in Hle.
+          rewrite (last_indep _ zero_ex (s_ex (slot_at (ring st) noEx))) in Hle by (simpl; discriminate).
+          rewrite (last_map (fun q => s_ex (slot_at (ring st) q)) (o :: ps') noEx) in Hle by discriminate.
+          rewrite Hlast, Hsn in Hle.
+          unfold in_range. destruct (Z.leb_spec lo (e_ts x)); [lia|reflexivity]. }
+        now rewrite E.
+      + destruct (existsb (Z.eqb sid) m) eqn:Em; cbn [negb].
+        * rewrite (sel_walk_chain (ring st) lo hi _ o ps' e [] Ec Hge). cbn [bind app]. rewrite IH. cbn [bind].
+          unfold selG. rewrite Em, HF, <- Hlist.
+          destruct (walk_list lo hi (map (fun q => s_ex (slot_at (ring st) q)) (o :: ps'))); reflexivity.
+        * rewrite IH. unfold selG. rewrite Em. reflexivity.
+  Qed.
+End SelectWF.
+
+Lemma nodupb_NoDup l : nodupb l = true -> NoDup l.
+Proof.
+  induction l as [|x t IH]; simpl; intros H; [constructor|].
+  apply andb_true_iff in H. destruct H as [H1 H2]. constructor; [|auto].
+  intros Hin. apply negb_true_iff in H1. assert (existsb (Z.eqb x) t = true); [|congruence].
+  apply existsb_exists. exists x. split; [auto|apply Z.eqb_refl].
+Qed.
+
+Lemma selG_in st lo hi m k x : In x (selG st lo hi m k) ->
+  fst x = k /\ exists e, In (k, e) (r_kept (abs_ring st)).
+Proof.
+  unfold selG. destruct (existsb _ m); [|contradiction].
+  destruct (selF st lo hi k) as [|e l] eqn:E; [contradiction|]. intros [<-|[]]. split; [reflexivity|].
+  exists e. apply in_series_list. unfold selF in E.
+  assert (H : In e (filter (in_range lo hi) (series_list k (r_kept (abs_ring st))))) by (rewrite E; now left).
+  apply filter_In in H. tauto.
+Qed.
+
+(* Select in a well-formed state returns what the reference returns *)
+Lemma select_correct st lo hi m : wfb st = true ->
+  select st lo hi m = Ok (sp_select (r_spec (abs_ring st)) lo hi m).
+Proof.
+  intros Hwf. pose proof Hwf as Hwf0. unfold wfb in Hwf. rewrite !andb_true_iff in Hwf.
+  destruct Hwf as [[[[[Hrange Hholes] Hnd] Hchains] Hkept] Hcount].
+  unfold select. destruct (Z.eqb_spec (zlen (ring st)) 0) as [E0|N0].
+  - assert (ring st = []) by (destruct (ring st); [reflexivity|unfold zlen in E0; simpl in E0; lia]).
+    unfold sp_select, r_spec, r_kept, abs_ring. simpl. rewrite H. simpl.
+    unfold rotate. rewrite skipn_nil, firstn_nil. reflexivity.
+  - rewrite (sel_loop_correct st lo hi m (index st) Hchains). cbn [bind]. f_equal.
+    set (kept := r_kept (abs_ring st)) in *.
+    change (sp_select (r_spec (abs_ring st)) lo hi m) with (flat_map (selG st lo hi m) (series_ids kept)).
+    set (X := flat_map (fun e : Z * (Z * Z) => selG st lo hi m (fst e)) (index st)).
+    assert (HX : forall x, In x X <-> exists entry, In entry (index st) /\ In x (selG st lo hi m (fst entry))).
+    { intros x. unfold X. apply in_flat_map. }
+    assert (Hnd' : NoDup (map fst X)).
+    { apply nodupb_NoDup in Hnd. unfold X. clear -Hnd. induction (index st) as [|[k v] t IH]; simpl; [constructor|].
+      simpl in Hnd. inversion Hnd as [|? ? Hni Hnd']; subst. rewrite map_app.
+      destruct (selG_shape st lo hi m k) as [->|[v' ->]]; simpl; [auto|].
+      constructor; [|auto]. intros Hin. apply Hni. apply in_map_iff in Hin.
+      destruct Hin as (x & Ex & Hx). apply in_flat_map in Hx. destruct Hx as (entry & He & Hx).
+      apply selG_in in Hx. destruct Hx as [Hx _]. rewrite <- Ex, Hx. now apply in_map. }
+    destruct (sort_by_key_strict X Hnd') as [S1 S2].
+    apply sorted_key_ext; [exact S1| |].
+    + apply flat_map_key_strict; [apply selG_shape|apply series_ids_strict].
+    + intros x. rewrite S2, HX, in_flat_map. split.
+      * intros (entry & He & Hx). exists (fst entry). split; [|exact Hx].
+        apply selG_in in Hx. destruct Hx as [_ [e Hx]]. apply in_series_ids. eauto.
+      * intros (k & Hk & Hx). pose proof Hx as Hx'. apply selG_in in Hx'. destruct Hx' as [_ [e He]].
+        rewrite forallb_forall in Hkept. specialize (Hkept _ He). simpl in Hkept.
+        destruct (ix_get (index st) k) as [v|] eqn:Eg; [|discriminate]. apply ix_get_in in Eg.
+        exists (k, v). split; [exact Eg|exact Hx].
+Qed.
+
+(* all three reads at once, as observations of [step] *)
+Lemma reads_correct st o : wfb st = true ->
+  match o with
+  | OValidate _ _ | OSelect _ _ _ | OIter =>
+      exists b, step st o = Ok (st, b) /\ r_step (abs_ring st) o = Ok (abs_ring st, b)
+  | _ => True
+  end.
+Proof.
+  intros Hwf. destruct o as [sid e|sid e|l|d|lo hi m| |]; try exact I; simpl.
+  - rewrite validate_op_correct by exact Hwf. cbn [bind]. eauto.
+  - rewrite select_correct by exact Hwf. cbn [bind]. eauto.
+  - rewrite iterate_correct; [cbn [bind]; eauto|].
+    unfold wfb in Hwf. rewrite !andb_true_iff in Hwf. destruct Hwf as [[[[[Hrange _] _] _] _] _].
+    apply orb_true_iff in Hrange. destruct Hrange as [H|H]; apply andb_true_iff in H; destruct H as [H1 H2].
+    + left. apply Z.eqb_eq in H1, H2. auto.
+    + right. apply Z.leb_le in H1. apply Z.ltb_lt in H2. lia.
+Qed.
+
+Lemma demo_wf : exists st, exec (new_state 3 50) (firstn 6 demo_ops) = Ok st /\ wfb st = true /\
+  index st = [(0, (0, 2)); (1, (1, 1))] /\ nexti st = 2.
+Proof. eexists. split; [vm_compute; reflexivity|]. vm_compute. auto. Qed.
